@@ -24,6 +24,12 @@ package stubs
 
 //@ extern bytes.HasPrefix
 //@   ensures result == (len(prefix) <= len(s) && str(s[:min(len(prefix), len(s))]) == str(prefix))
+//@ extern bytes.TrimSuffix
+//@   ensures (len(suffix) <= len(s) && str(s[max(0, len(s) - len(suffix)):]) == str(suffix)) ==> result == s[:len(s) - len(suffix)]
+//@   ensures !(len(suffix) <= len(s) && str(s[max(0, len(s) - len(suffix)):]) == str(suffix)) ==> result == s
+//@ extern bytes.TrimPrefix
+//@   ensures (len(prefix) <= len(s) && str(s[:min(len(prefix), len(s))]) == str(prefix)) ==> result == s[len(prefix):]
+//@   ensures !(len(prefix) <= len(s) && str(s[:min(len(prefix), len(s))]) == str(prefix)) ==> result == s
 //@ ufun pathBaseOf(p string) string
 //@ extern path.Base
 //@   ensures result == pathBaseOf(path)
